@@ -22,6 +22,7 @@ rlbox_load_structs_from_library(vlib);
 using SbxA = rlbox::rlbox_vsbx<vsbx::AbiA, 16, 8>;
 using SbxB = rlbox::rlbox_vsbx<vsbx::AbiB, 16, 8>;
 using SbxC = rlbox::rlbox_vsbx<vsbx::AbiC, 16, 8>;
+using SbxAg = rlbox::rlbox_vsbx<vsbx::AbiAg, 16, 8>;  // ABI A with can_grant_deny_access
 using SbxN = rlbox::rlbox_vsbx<vsbx::AbiN, 16, 8>;   // native-pointer representation (void*), host ABI, real region
 
 namespace vh {
